@@ -122,8 +122,26 @@ def main():
             functions |= set(r.get("functions", []))
             n_examples += len(r.get("examples", []))
             if r.get("status") != "ok":
-                harness_errors.append("self-validation failed for %s.%s: %s" % (
-                    m, o.name, json.dumps(r.get("examples", r))[:1500]))
+                # a catalogue example that fails: replay it against the real code (stubs removed);
+                # reproduced => the tree violates the property on this very input
+                reproduced = False
+                for exm in r.get("examples", []):
+                    if exm.get("result") is True:
+                        continue
+                    rr = call_runner(m, o.name, "replay", part=exm["part"], args=exm["args"],
+                                     env_extra={"VERIF_REPLAY": "1"})
+                    if rr.get("result") is not True and "exception" in rr:
+                        os.makedirs(os.path.join(VERIF, "replays"), exist_ok=True)
+                        path = os.path.join(VERIF, "replays", "%s_%s_p%s_example.json" % (prop, o.name, exm["part"]))
+                        with open(path, "w") as f:
+                            json.dump({"property": prop, "module": m, "obligation": o.name, "part": exm["part"],
+                                       "args": exm["args"], "message": "catalogue example fails",
+                                       "replay_exception": rr.get("exception")}, f, indent=1)
+                        violations.append(path)
+                        reproduced = True
+                if not reproduced:
+                    harness_errors.append("self-validation failed for %s.%s: %s" % (
+                        m, o.name, json.dumps(r.get("examples", r))[:1500]))
     for selfcheck in entry.get("selfchecks", []):
         p = subprocess.run([PY, os.path.join(VERIF, selfcheck)], cwd=VERIF, capture_output=True, text=True)
         if p.returncode != 0:
@@ -156,7 +174,7 @@ def main():
     # longest first
     jobs.sort(key=lambda j: -j[3])
     results = []
-    if not harness_errors:
+    if not harness_errors and not violations:
         with cf.ThreadPoolExecutor(NCPU) as ex:
             futs = {ex.submit(call_runner, m, o.name, "sym", p, tmo): (m, o, p, tmo) for (m, o, p, tmo) in jobs}
             for fu in cf.as_completed(futs):
